@@ -149,6 +149,23 @@ fn case_bitpack(ctx: &mut Ctx, seed: u64, case: &Value) {
         if pos != brute {
             oracle(ctx, "C08:bitpack-range-lookup", format!("width {w}: get_ids_for_value_range({lo}..={hi}, {s}..{e}) returned {} ids, brute force {}", pos.len(), brute.len()), case);
         }
+        // the model of the lookup (slow u64 path / translated u32 conversion) on the same bytes, also with
+        // range ends around and above u32::MAX
+        if n <= 600 {
+            let mut r2 = Rng(seed ^ 0x5151_5151); // separate stream: the case's own draws stay as they were
+            let hi2 = match r2.below(4) { 0 => hi, 1 => (1u64 << 32) + r2.below(8), 2 => u32::MAX as u64 - r2.below(3), _ => u64::MAX - r2.below(3) };
+            let lo2 = if r2.chance(1, 6) { (1u64 << 32) + r2.below(4) } else { lo.min(hi2) };
+            let mut pos2 = vec![];
+            un.get_ids_for_value_range(lo2..=hi2, s as u32..e as u32, &data, &mut pos2);
+            let brute2: Vec<u32> = (s..e).filter(|&i| vals[i] >= lo2 && vals[i] <= hi2).map(|i| i as u32).collect();
+            if pos2 != brute2 {
+                oracle(ctx, "C08:bitpack-range-lookup", format!("width {w}: get_ids_for_value_range({lo2}..={hi2}, {s}..{e}) returned {} ids, brute force {}", pos2.len(), brute2.len()), case);
+            }
+            let m = ctx.model.ask(&format!("C08 rangeids {w} {} {lo2} {hi2} {s} {e}", hex(&data)));
+            if m != nat_list(&pos2) {
+                modelv(ctx, "C08:bitpack-range-lookup-model", format!("width {w}: model get_ids_for_value_range({lo2}..={hi2}, {s}..{e}) differs from the real result"), case);
+            }
+        }
     }
     // model: same bytes, same reads
     let m = ctx.model.ask(&format!("C08 pack {w} {}", nat_list(&vals)));
@@ -810,6 +827,7 @@ pub fn run(ctx: &mut Ctx) {
     ctx.report.correspondence_obligations = vec![
         "BitPacker bytes = model pack (byte exact); model BitUnpacker::get on real bytes = values".into(),
         "compute_num_bits = model".into(),
+        "BitUnpacker::get_ids_for_value_range = model (slow path / translated u32 conversion) on the same bytes".into(),
         "model decode of real column-values bytes (bitpacked / linear / blockwise) = indexed values; header stats equal".into(),
         "real decoder on model-encoded column bytes = values".into(),
         "serialize_optional_index bytes = model optEnc (byte exact, incl. sparse/dense switch at the threshold)".into(),
